@@ -12,9 +12,10 @@
  *                 comma separated hex strings = deflate.allowed-encodings values,
  *                 turned into flags by the real mod_deflate_encodings_to_flags()
  *        -> gzip | x-gzip | deflate | none
- *  name <cache-dir> <physical path> <etag> <pid>
- *        mod_deflate_cache_file_name() and the name mod_deflate_cache_file_open() creates
- *        -> <final name> <temporary name>
+ *  name <dir> <physical path> <identity etag> <label> <pid>
+ *        a cacheable response (deflate.cache-dir = <scratch cache dir><dir>, r->physical.path = <path>)
+ *        through response_start; -> <name given to rename()> <name given to open(O_CREAT)>, both without
+ *        the scratch cache dir prefix (the model uses the base "/c")
  *  rs <allowed> <mimes> <min> <maxkb> <cd> <method> <ae> <inm> <status> <flags> <ctype>
  *     <etag> <vary> <cc> <bk> <gen> <len>
  *        mod_deflate_handle_response_start() on a synthetic finished response
@@ -31,7 +32,9 @@
  *                    | err (HANDLER_ERROR)
  *           body: raw:<gen>:<len>:<hex of the bytes the write queue would send>
  *  cache <op> <op> ...      one history over a fresh document root + cache directory
- *        M:<file>:<v>:<content>       rewrite source file <file> in place, mtime = T0 + v s
+ *        K                            a second passes (log_monotonic_secs + 1); only K and M advance the clock,
+ *                                     so stat cache entries stay trusted between ops without a K
+ *        M:<file>:<v>:<content>       (a second passes, then) rewrite source file <file> in place, mtime = T0 + v s
  *        R:<file>:<label>:<pid>:<plan> GET with Accept-Encoding: <label> (ascii), served by
  *                                     the real http_response_send_file() + response_start
  *              plan = c<0|1> o<0|1> w<events> r<o|f|b|a>
@@ -124,7 +127,9 @@ static int ltv_open_cloexec(const char *path, int symlinks, int flags, mode_t mo
     return fdevent_open_cloexec(path, symlinks, flags, mode);
 }
 
+static char last_rename_to[8300];
 static int ltv_rename(const char *a, const char *b) {
+    snprintf(last_rename_to, sizeof(last_rename_to), "%s", b);
     switch (plan.ren) {
       case 'f': errno = EACCES; return -1;
       case 'b': crash_now();
@@ -135,11 +140,52 @@ static int ltv_rename(const char *a, const char *b) {
 
 static pid_t ltv_getpid(void) { return (pid_t)plan.pid; }
 
+/* trace of the stream assembly (op zs): every deflate() call with its arguments and its answer,
+ * every hand-over of the output buffer, every pread() of a file chunk (short reads scripted) */
+static struct {
+    int on;
+    FILE *out;                 /* memstream collecting the trace */
+    const char *rd;            /* cursor into the read script: comma separated k (at most k+1 bytes) */
+} ztr;
+
+static int ltv_deflate(z_streamp z, int flush) {
+    const unsigned ai = z->avail_in, ao = z->avail_out;
+    const int rc = deflate(z, flush);
+    if (ztr.on)
+        fprintf(ztr.out, " D%u:%u:%d>%u:%u:%s", ai, ao, flush == Z_FINISH ? 1 : 0, ai - z->avail_in, ao - z->avail_out,
+                rc == Z_OK ? "ok" : rc == Z_STREAM_END ? "end" : "err");
+    return rc;
+}
+
+static int ltv_http_chunk_append_mem(request_st * const r, const char * const mem, const size_t len) {
+    if (ztr.on) fprintf(ztr.out, " A%zu", len);
+    return http_chunk_append_mem(r, mem, len);
+}
+
+static ssize_t ltv_file_pread(int fd, void *buf, size_t count, off_t offset) {
+    size_t lim = count;
+    if (ztr.on) {
+        fprintf(ztr.out, " R%zu@%lld", count, (long long)offset);
+        if (ztr.rd && *ztr.rd >= '0' && *ztr.rd <= '9') {
+            size_t k = (size_t)strtoul(ztr.rd, (char **)&ztr.rd, 10) + 1;
+            if (*ztr.rd == ',') ++ztr.rd;
+            if (k < lim) lim = k;
+        }
+    }
+    return chunk_file_pread(fd, buf, lim, offset);
+}
+
 #define write ltv_write
 #define getpid ltv_getpid
 #define fdevent_rename ltv_rename
 #define fdevent_open_cloexec ltv_open_cloexec
+#define deflate ltv_deflate
+#define http_chunk_append_mem ltv_http_chunk_append_mem
+#define chunk_file_pread ltv_file_pread
 #include "mod_deflate.c"
+#undef deflate
+#undef http_chunk_append_mem
+#undef chunk_file_pread
 #undef write
 #undef getpid
 #undef fdevent_rename
@@ -219,6 +265,7 @@ static uint16_t *allowed_from_tok(const char *tok, int *isdef) {
 
 static void gen_body(unsigned char *out, char kind, unsigned long seed, size_t n) {
     uint32_t x = (uint32_t)seed;
+    if (kind == 'c') { memset(out, 'a' + (int)(seed % 26), n); return; }   /* constant: compresses to almost nothing */
     for (size_t i = 0; i < n; ++i) {
         x = (x * 1103515245u + 12345u) & 0x7fffffffu;
         out[i] = (kind == 't') ? (unsigned char)(97 + ((x >> 16) & 3)) : (unsigned char)((x >> 16) & 0xff);
@@ -307,30 +354,63 @@ static void op_ae(void) {
 }
 
 /* ---------------------------------------------------------------- op: name */
+/* black box: a cacheable response goes through response_start; the names are those handed to
+ * open(O_CREAT) and rename() (no static helper of mod_deflate.c is called directly) */
 static void op_name(void) {
     request_st * const r = &rq;
+    req_reset(r);
     size_t nd, np, ne;
     unsigned char *d = ltv_unhex(ltv_tok[1], &nd);
     unsigned char *pa = ltv_unhex(ltv_tok[2], &np);
     unsigned char *e = ltv_unhex(ltv_tok[3], &ne);
-    if (ne < 2) { puts("bad-op"); free(d); free(pa); free(e); return; }
-    buffer *dir = buffer_init(), *etag = buffer_init();
-    buffer_copy_string_len(dir, (char *)d, nd);
-    buffer_copy_string_len(etag, (char *)e, ne);
+    const char *lab = ltv_tok[4];
+    memset(&P->defaults, 0, sizeof(P->defaults));
+    array *mimes = array_init(1);
+    array_insert_value(mimes, CONST_STR_LEN("text/"));
+    buffer *cdir = buffer_init();
+    buffer_copy_string(cdir, cachedir);
+    buffer_append_string_len(cdir, (char *)d, nd);
+    P->defaults.mimetypes = mimes;
+    P->defaults.allowed_encodings = default_encodings;
+    P->defaults.compression_level = -1;
+    P->defaults.cache_dir = cdir;
+    char fpath[4200];
+    snprintf(fpath, sizeof(fpath), "%s/body.txt", docdir);
+    buffer *fn = buffer_init();
+    buffer_copy_string(fn, fpath);
+    int fd = (0 == write_file(fpath, (const unsigned char *)"name name name name", 19, 1)) ? open(fpath, O_RDONLY | O_CLOEXEC) : -1;
+    if (fd < 0 || ne < 3) { puts("bad-op"); goto done; }
+    chunkqueue_append_file_fd(&r->write_queue, fn, fd, 0, 19);
+    r->http_method = HTTP_METHOD_GET;
+    r->http_version = HTTP_VERSION_1_1;
+    r->http_status = 200;
+    r->resp_body_finished = 1;
+    http_header_request_set(r, HTTP_HEADER_ACCEPT_ENCODING, CONST_STR_LEN("Accept-Encoding"), lab, (uint32_t)strlen(lab));
+    http_header_response_set(r, HTTP_HEADER_CONTENT_TYPE, CONST_STR_LEN("Content-Type"), CONST_STR_LEN("text/plain"));
+    http_header_response_set(r, HTTP_HEADER_ETAG, CONST_STR_LEN("ETag"), (char *)e, (uint32_t)ne);
     buffer_copy_string_len(&r->physical.path, (char *)pa, np);
-    buffer *tb = mod_deflate_cache_file_name(r, dir, etag);
-    ltv_puthex(tb->ptr, buffer_clen(tb));
-    plan.open_ok = 0; plan.pid = atoi(ltv_tok[4]); plan.tmp_fd = -1; plan.opened = 0;
-    last_creat_path[0] = 0;
-    handler_ctx *hctx = handler_ctx_init();
-    mod_deflate_cache_file_open(hctx, tb);          /* open() is scripted to fail: only the name is taken */
-    fputc(' ', stdout);
-    ltv_puthex(last_creat_path, strlen(last_creat_path));
-    fputc('\n', stdout);
-    handler_ctx_free(hctx);
-    buffer_free(dir); buffer_free(etag);
+    tick();
+    plan.open_ok = 1; plan.w = ""; plan.ren = 'o'; plan.pid = atoi(ltv_tok[5]); plan.tmp_fd = -1; plan.opened = 0;
+    last_creat_path[0] = 0; last_rename_to[0] = 0;
+    handler_t rc = mod_deflate_handle_response_start(r, P);
+    const size_t cl = strlen(cachedir);
+    if (rc != HANDLER_GO_ON || strlen(last_rename_to) < cl || strlen(last_creat_path) < cl) puts("no-cache-file");
+    else {
+        ltv_puthex(last_rename_to + cl, strlen(last_rename_to + cl));
+        fputc(' ', stdout);
+        ltv_puthex(last_creat_path + cl, strlen(last_creat_path + cl));
+        fputc('\n', stdout);
+    }
+done:
+    if (r->plugin_ctx[0]) { mod_deflate_cleanup(r, P); }
+    chunkqueue_reset(&r->write_queue);
+    wipe_dir(cachedir);
+    unlink(fpath);
+    buffer_free(fn); buffer_free(cdir);
+    array_free(mimes);
     free(d); free(pa); free(e);
-    plan.open_ok = 1;
+    P->defaults.mimetypes = NULL;
+    P->defaults.cache_dir = NULL;
 }
 
 /* ---------------------------------------------------------------- op: rs */
@@ -486,6 +566,101 @@ done:
     P->defaults.cache_dir = NULL;
 }
 
+/* ---------------------------------------------------------------- op: zs */
+/* zs <label> <cap> <layout> <gen> <readscript> <zscript>
+ *   layout: comma separated chunks  m<n> MEM_CHUNK | f<n> whole file | p<n> file chunk at offset 3 of a file
+ *           ending with the chunk | P<n> file chunk over the first n bytes of a longer file | o<n> chunk at offset 3
+ *           of a longer file;  cap = hctx->output->size for this run; readscript "-" or k,k,..
+ *   zscript is not read here (the real zlib answers); it is "?" in the first pass and the recorded answers
+ *   (consumed:produced:rc,...) in the second pass, where the Lean model replays them
+ *   -> <ok|err> <trace: D<avail_in>:<avail_out>:<finish>><consumed>:<produced>:<rc>  A<len>  R<count>@<offset> ...>
+ *      zraw:<label>:<gen>:<total>:<hex of the queue> */
+static void op_zs(void) {
+    request_st * const r = &rq;
+    req_reset(r);
+    memset(&P->defaults, 0, sizeof(P->defaults));
+    array *mimes = array_init(1);
+    array_insert_value(mimes, CONST_STR_LEN("text/"));
+    P->defaults.mimetypes = mimes;
+    P->defaults.allowed_encodings = default_encodings;
+    P->defaults.compression_level = -1;
+    const char *lab = ltv_tok[1];
+    const uint32_t cap = (uint32_t)strtoul(ltv_tok[2], NULL, 10);
+    const char gk = ltv_tok[4][0];
+    const unsigned long seed = strtoul(ltv_tok[4] + 1, NULL, 10);
+    /* total size */
+    size_t total = 0;
+    for (const char *q = ltv_tok[3]; *q; ) { char *e; total += strtoul(q + 1, &e, 10); q = (*e == ',') ? e + 1 : e; }
+    unsigned char *body = malloc(total + 4);
+    gen_body(body, gk, seed, total);
+    chunkqueue * const cq = &r->write_queue;
+    char fpaths[64][4200]; int nfiles = 0;
+    size_t pos = 0; int bad = 0;
+    for (const char *q = ltv_tok[3]; *q && !bad; ) {
+        const char kind = *q; char *e;
+        size_t n = strtoul(q + 1, &e, 10);
+        q = (*e == ',') ? e + 1 : e;
+        if (0 == n || nfiles >= 64) { bad = 1; break; }
+        if (kind == 'm') {
+            buffer *b = chunkqueue_append_buffer_open_sz(cq, n + 1);
+            buffer_copy_string_len(b, (char *)body + pos, n);
+            chunkqueue_append_buffer_commit(cq);
+        }
+        else {
+            const size_t pre = (kind == 'p' || kind == 'o') ? 3 : 0;
+            const size_t post = (kind == 'P' || kind == 'o') ? 100 : 0;
+            unsigned char *tmp = malloc(pre + n + post + 1);
+            memcpy(tmp, "JNK", pre); memcpy(tmp + pre, body + pos, n); memset(tmp + pre + n, 'T', post);
+            snprintf(fpaths[nfiles], sizeof(fpaths[0]), "%s/z%d.txt", docdir, nfiles);
+            int rc = write_file(fpaths[nfiles], tmp, pre + n + post, 1);
+            free(tmp);
+            int fd = rc ? -1 : open(fpaths[nfiles], O_RDONLY | O_CLOEXEC);
+            if (fd < 0) { bad = 1; break; }
+            buffer *fn = buffer_init();
+            buffer_copy_string(fn, fpaths[nfiles]);
+            chunkqueue_append_file_fd(cq, fn, fd, (off_t)pre, (off_t)n);
+            buffer_free(fn);
+            ++nfiles;
+        }
+        pos += n;
+    }
+    if (bad || 0 == total || cap < 1 || cap > 131072) { puts("bad-op"); goto done; }
+    r->http_method = HTTP_METHOD_GET;
+    r->http_version = HTTP_VERSION_1_1;
+    r->http_status = 200;
+    r->resp_body_finished = 1;
+    http_header_request_set(r, HTTP_HEADER_ACCEPT_ENCODING, CONST_STR_LEN("Accept-Encoding"), lab, (uint32_t)strlen(lab));
+    http_header_response_set(r, HTTP_HEADER_CONTENT_TYPE, CONST_STR_LEN("Content-Type"), CONST_STR_LEN("text/plain"));
+    buffer_copy_string(&r->physical.path, "/nowhere");
+    tick();
+    plan.open_ok = 1; plan.w = ""; plan.ren = 'o'; plan.pid = 4242; plan.tmp_fd = -1; plan.opened = 0;
+    {
+        char *mem = NULL; size_t memsz = 0;
+        ztr.out = open_memstream(&mem, &memsz);
+        ztr.rd = (ltv_tok[5][0] == '-') ? NULL : ltv_tok[5];
+        ztr.on = 1;
+        const uint32_t realsz = P->tmp_buf.size;
+        P->tmp_buf.size = cap;                      /* hctx->output->size */
+        handler_t rc = mod_deflate_handle_response_start(r, P);
+        P->tmp_buf.size = realsz;
+        ztr.on = 0;
+        fclose(ztr.out);
+        fputs(rc == HANDLER_GO_ON ? "ok" : "err", stdout);
+        fwrite(mem, 1, memsz, stdout);
+        free(mem);
+        printf(" zraw:%s:%s:%zu:", lab, ltv_tok[4], total);
+        if (rc == HANDLER_GO_ON) { if (dump_cq(cq) < 0) fputs(":BADQUEUE", stdout); } else fputc('-', stdout);
+        fputc('\n', stdout);
+    }
+done:
+    if (r->plugin_ctx[0]) { mod_deflate_cleanup(r, P); }
+    chunkqueue_reset(cq);
+    for (int i = 0; i < nfiles; ++i) unlink(fpaths[i]);
+    free(body);
+    array_free(mimes);
+    P->defaults.mimetypes = NULL;
+}
+
 /* ---------------------------------------------------------------- op: cache */
 #define MAXVER 256
 static struct { int file; char vtok[32]; char etag[32]; } vers[MAXVER];
@@ -613,12 +788,17 @@ static void op_cache(void) {
     P->defaults.compression_level = -1;
     P->defaults.cache_dir = cdir;
     int first = 1;
+    long cur_pid = -1;
     for (int t = 1; t < ltv_ntok; ++t) {
         char *op = ltv_tok[t];
         if (!first) fputc(' ', stdout);
         first = 0;
-        tick();
-        if (op[0] == 'M' && op[1] == ':') {
+        if (op[0] == 'K' && op[1] == 0) {       /* a second passes: stat cache entries are re-validated */
+            tick();
+            fputc('q', stdout);
+        }
+        else if (op[0] == 'M' && op[1] == ':') {
+            tick();
             char *s = op + 2, *end;
             long file = strtol(s, &end, 10); s = end + 1;
             long v = strtol(s, &end, 10); s = end + 1;
@@ -650,6 +830,7 @@ static void op_cache(void) {
             /* plan: c<d>o<d>w<events>r<c> */
             int cacheable = 1;
             plan.open_ok = 1; plan.w = ""; plan.ren = 'o'; plan.pid = (int)pid; plan.tmp_fd = -1; plan.opened = 0;
+            if (pid != cur_pid) { stat_cache_free(); cur_pid = pid; }   /* another process: its own stat cache */
             if (s[0] == 'c') { cacheable = s[1] == '1'; s += 2; }
             if (s[0] == 'o') { plan.open_ok = s[1] == '1'; s += 2; }
             char *rpos = strrchr(s, 'r');
@@ -677,6 +858,7 @@ static void op_cache(void) {
                 /* the process died inside the cache writer: nothing is sent; memory and
                  * descriptors of the dead process are gone (here: leaked / closed) */
                 r->plugin_ctx[0] = NULL;
+                stat_cache_free();
                 fputc('X', stdout);
                 continue;
             }
@@ -782,7 +964,8 @@ int main(void) {
         const char *op = ltv_tok[0];
         if (0 == strcmp(op, "ae") && ltv_ntok == 3) op_ae();
         else if (0 == strcmp(op, "rs") && ltv_ntok == 18) op_rs();
-        else if (0 == strcmp(op, "name") && ltv_ntok == 5) op_name();
+        else if (0 == strcmp(op, "name") && ltv_ntok == 6) op_name();
+        else if (0 == strcmp(op, "zs") && ltv_ntok == 7) op_zs();
         else if (0 == strcmp(op, "cache") && ltv_ntok >= 1) op_cache();
         else puts("bad-op");
         fflush(stdout);
